@@ -59,7 +59,8 @@ VARIABLES ps,      \* configuration: Options.ListPageSize
           out,     \* outcome of the finished call (constraint record)
           nreq,    \* requests made in this scenario (= responses consumed); numbers the responses
           cq,      \* requests made by the call in progress
-          fl       \* [on, from]: the next request follows the redirect carried by response `from`
+          fl       \* [on, from, open]: the next request follows the redirect carried by response `from`
+                   \* (open: to a target the model does not interpret)
 
 vars == <<ps, pc, call, m, w, rd, out, nreq, cq, fl>>
 
